@@ -91,6 +91,19 @@ func (m singleModel) Initialise() (error, TimeSteppingModel, data.ND3Float64, da
 		states = model.InitialiseStates(1)
 	}
 	var inputs data.ND3Float64 = nil
+	nTimesteps := -1
+	for _, p := range desc.Inputs {
+		thisInput := m.Inputs.Find(p)
+		if thisInput == nil {
+			continue
+		}
+		if nTimesteps < 0 {
+			nTimesteps = len(thisInput)
+		} else if len(thisInput) != nTimesteps {
+			return errors.New(fmt.Sprintf("Input %s has length %d, expected %d: all inputs must have the same length", p, len(thisInput), nTimesteps)), nil, nil, nil, warnings
+		}
+	}
+
 	for i, p := range desc.Inputs {
 		thisInput := m.Inputs.Find(p)
 		if thisInput == nil {
